@@ -1,6 +1,9 @@
 package symex
 
 import (
+	"fmt"
+	"sort"
+
 	"verif/internal/smt"
 )
 
@@ -36,4 +39,97 @@ func GroupScript(os []*Oblig, models bool) string {
 	hyps = append(constAxioms(all), hyps...)
 	q := &smt.Query{Hyps: hyps, Goal: goal}
 	return q.Script(models)
+}
+
+// MergeSameGoal folds obligations that have the identical goal term (paths
+// that reach the same program point with the same symbolic state, differing
+// only in branch conditions that do not matter) into one obligation whose
+// hypotheses are the common prefix of the path conditions plus the disjunction
+// of the differing suffixes. Sound and complete: (A1 => G) and (A2 => G) iff (A1 or A2) => G.
+func MergeSameGoal(obligs []*Oblig) []*Oblig {
+	type key struct {
+		goal *smt.Term
+		kind string
+		fn   string
+	}
+	groups := map[key][]*Oblig{}
+	var order []key
+	for _, o := range obligs {
+		if o.Goal == nil || o.Trivial || o.Hyps != nil || o.pc == nil {
+			continue
+		}
+		k := key{o.Goal, o.Kind, o.Func}
+		if _, ok := groups[k]; !ok {
+			order = append(order, k)
+		}
+		groups[k] = append(groups[k], o)
+	}
+	drop := map[*Oblig]bool{}
+	repl := map[*Oblig]*Oblig{}
+	for _, k := range order {
+		g := groups[k]
+		if len(g) < 2 {
+			continue
+		}
+		// lowest common ancestor of the path conditions
+		lca := g[0].pc
+		for _, o := range g[1:] {
+			a, b := lca, o.pc
+			for lenPC(a) > lenPC(b) {
+				a = a.parent
+			}
+			for lenPC(b) > lenPC(a) {
+				b = b.parent
+			}
+			for a != b {
+				a, b = a.parent, b.parent
+			}
+			lca = a
+		}
+		base := lenPC(lca)
+		var alts []*smt.Term
+		tooLong := false
+		for _, o := range g {
+			suf := o.pc.list()[base:]
+			if len(suf) > 400 {
+				tooLong = true
+				break
+			}
+			alts = append(alts, smt.And(suf...))
+		}
+		if tooLong {
+			continue
+		}
+		m := *g[0]
+		m.pc = nil
+		m.Hyps = append(lca.list(), smt.Or(alts...))
+		m.Name = g[0].Name + fmt.Sprintf(" (+%d paths with the same goal)", len(g)-1)
+		propSet := map[string]bool{}
+		for _, o := range g {
+			for _, p := range o.Props {
+				propSet[p] = true
+			}
+		}
+		m.Props = nil
+		for p := range propSet {
+			m.Props = append(m.Props, p)
+		}
+		sort.Strings(m.Props)
+		repl[g[0]] = &m
+		for _, o := range g[1:] {
+			drop[o] = true
+		}
+	}
+	var out []*Oblig
+	for _, o := range obligs {
+		if drop[o] {
+			continue
+		}
+		if r, ok := repl[o]; ok {
+			out = append(out, r)
+			continue
+		}
+		out = append(out, o)
+	}
+	return out
 }
